@@ -256,20 +256,74 @@ def run(chk):
             # the merged result starts as {} and is what is returned when no server answers
             rets = sorted([r for r in walk_no_nested(target.node) if isinstance(r, ast.Return) and isinstance(r.value, ast.Name)], key=lambda r: r.lineno)
             init = local_defs(target).get(rets[-1].value.id) if rets else None
-            r2.expect(isinstance(init, ast.Dict) and not init.keys, "HashClient.%s merges into an empty dict" % m, "HashClient.%s:merge-init" % m, "HashClient.%s does not start from an empty dict" % m, fn=target)
+            empty = isinstance(init, ast.Dict) and not init.keys or (isinstance(init, ast.Call) and call_name(init) in ("dict", "OrderedDict", "collections.OrderedDict") and not init.args and not init.keywords)
+            other = isinstance(init, (ast.Dict, ast.DictComp, ast.Constant, ast.List, ast.Tuple, ast.Set, ast.ListComp)) or (isinstance(init, ast.Call) and call_name(init) in ("dict", "OrderedDict", "collections.OrderedDict", "list", "set", "tuple"))
+            if empty or other:
+                r2.expect(empty, "HashClient.%s merges into an empty dict" % m, "HashClient.%s:merge-init" % m, "HashClient.%s starts its merged result as `%s`, not as an empty dict: that is what it returns when no server answers" % (m, node_src(init)), fn=target)
+            else:
+                r2.undecided("HashClient.%s:merge-init" % m, "the value HashClient.%s starts its merged result from (`%s`) is not a display or constructor this rule can read" % (m, node_src(init) if init is not None else "no single initialisation found"))
     r2.floor("HashClient default-value sites", n_h, 6)
     # what _run_cmd / _safely_run_func return on failure is that default
+    # what _run_cmd / _safely_run_func hand out on failure is that default: both interpreted with their parameters as
+    # symbols - _run_cmd with no client left for the key, _safely_run_func with the delegate raising under ignore_exc
+    from .paths import Opaque
+
+    class _DefaultDomain(Domain):
+        async_enabled = False
+        subscript_may_raise = False
+        unpack_may_raise = False
+        global_keys = ("#raised",)
+
+        def __init__(self, prog, fn, delegate, raises):
+            super().__init__(prog, fn)
+            self.delegate, self.raises = delegate, raises
+
+        def attr_load(self, objval, node, state):
+            if is_self_attr(node, "ignore_exc"):
+                return Const(True)
+            return TOP
+
+        def call(self, node, fval, args, kwargs, state):
+            name = call_name(node)
+            if name == "self._get_client":
+                from .paths import TupleV
+
+                return [("ok", TupleV((NONE, Opaque("param:key"))), state)]  # no server left for the key
+            if fval == Opaque("param:" + self.delegate) and self.raises is not None:
+                return [("exc", Exc(ORD, self.raises, node.lineno), state.set("#raised", 1))]
+            if name.startswith("self._") and name.count(".") == 1 and name[5:] not in ("_mark_failed_server", "_retry_dead", "remove_server", "add_server"):
+                m = self.prog.method(hashc, name[5:], required=False)
+                if m is not None and m is not self.fn:
+                    res = self.inline(node, m, args, kwargs, state)
+                    if res is not None:
+                        return res
+            return [("ok", TOP, state)]
+
+    def _default_rows(f, delegate, raises, key, what, msg):
+        dvp = f.pos_params()[2].name if len(f.pos_params()) > 2 else None
+        if dvp is None:
+            r2.fail(key, "%s has no default-value parameter" % f.qualname, fn=f)
+            return
+        dom_ = _DefaultDomain(prog, f, delegate, raises)
+        env_ = {p.name: Opaque("param:" + p.name) for p in f.params if p.name != "self"}
+        outs_ = Interp(dom_, f.node, prog).run(Env(env_))
+        rets_ = [(s_, v_) for s_, v_, t_ in outs_.of("ret") if raises is None or s_.get("#raised", 0)]
+        if not rets_:
+            r2.fail(key, "%s: no path returns a value when %s" % (f.qualname, what), fn=f, node=f.node)
+            return
+        bad_ = [v_ for s_, v_ in rets_ if v_ != Opaque("param:" + dvp)]
+        lost_ = [v_ for v_ in bad_ if v_ is TOP]
+        if bad_ and len(lost_) == len(bad_):
+            r2.undecided(key, "%s: the value returned when %s is lost by the analysis" % (f.qualname, what))
+        else:
+            r2.expect(not bad_, "%s returns %s when %s" % (f.qualname, dvp, what), key, msg % (bad_[:1],), fn=f, node=f.node)
+
     rc = prog.method(hashc, "_run_cmd")
-    dv = rc.pos_params()[2].name if len(rc.pos_params()) > 2 else None
-    rets = [r for r in walk_no_nested(rc.node) if isinstance(r, ast.Return)]
-    ok = any(isinstance(r.value, ast.Name) and r.value.id == dv for r in rets)
-    r2.expect(ok, "_run_cmd returns default_val when no server is left", "HashClient._run_cmd:no-server-value", "_run_cmd does not return its default value when no client is available", fn=rc)
+    _default_rows(rc, "<none>", None, "HashClient._run_cmd:no-server-value", "no server is left for the key", "_run_cmd does not return its default value when no client is available (it returns %s)")
     sf = prog.method(hashc, "_safely_run_func")
-    dvn = sf.pos_params()[2].name if len(sf.pos_params()) > 2 else None
-    for h in [n for n in walk_no_nested(sf.node) if isinstance(n, ast.ExceptHandler)]:
-        rr = [r for r in ast.walk(h) if isinstance(r, ast.Return)]
-        ok = rr and all(isinstance(r.value, ast.Name) and r.value.id == dvn for r in rr)
-        r2.expect(ok, "_safely_run_func handler returns default_val", "HashClient._safely_run_func:handler-value", "a handler of _safely_run_func returns something other than default_val", fn=sf, node=h)
+    fnp = sf.pos_params()[1].name if len(sf.pos_params()) > 1 else "func"
+    for exc_cls in ("OSError", "Exception"):
+        _default_rows(sf, fnp, exc_cls, "HashClient._safely_run_func:handler-value", "the delegate raises %s and ignore_exc is set" % exc_cls, "with ignore_exc, a delegate failing with " + exc_cls + " makes _safely_run_func return %s, not default_val")
 
     # ------------------------------------------------------------------ R3 coverage
     r3 = chk.rule("C07.R3", "with ignore_exc no ordinary exception from a network / parse / deserialise call can escape a read method")
